@@ -181,6 +181,35 @@ def _bubble_binding(ck, files):
         ck.tool_errors.append("vacuity: no concurrent level sort was recorded (hook events missing?)")
 
 
+LEVELSWAP_CFGS = ["bdd0", "bdd1", "zbdd0", "zbdd1", "bdd0_dead", "bdd1_dead", "zbdd0_dead", "zbdd1_dead"]
+
+
+def levelswap_mc(ck, tier):
+    """design level: LevelSwap.tla, the transcription of oxidd_reorder::level_swap, for every canonical store of
+    one or two live functions (and one dead function) over 3 variables, both adjacent level pairs, BDD and ZBDD rules,
+    every visiting order of the old upper level: SemPreserved, WellFormed, RcExact, NoDangling.  quick: 23 selected
+    functions; thorough: all 256 (sharded over several TLC runs).  Two defective variants must be rejected."""
+    import concurrent.futures as cf
+    jobs = []
+    if tier == "quick":
+        jobs = [(c, None) for c in LEVELSWAP_CFGS]
+    else:
+        shards = 6
+        jobs = [(c, {"LS_MODE": "all", "LS_SHARDS": str(shards), "LS_SHARD": str(i)})
+                for c in LEVELSWAP_CFGS for i in range(shards)]
+
+    def run(job):
+        c, env = job
+        return vlib.model_check("LevelSwap", "MC_LevelSwap_" + c, workers=1 if env else 2, xmx="2g", timeout=3000, env=env)
+    with cf.ThreadPoolExecutor(max_workers=6 if tier == "quick" else 12) as ex:
+        for res in ex.map(run, jobs):
+            ck.add_mc(res, must_cover=["Finish"])
+    for neg, inv in [("neg_lookup", "WellFormed"), ("neg_zskip", "SemPreserved")]:
+        r = vlib.model_check("LevelSwap", "MC_LevelSwap_" + neg, workers=2, xmx="2g", timeout=900, coverage=False)
+        if r["ok"] or inv not in (r["violated"] or ""):
+            ck.tool_errors.append("vacuity: the defective variant MC_LevelSwap_%s is not rejected by %s" % (neg, inv))
+
+
 def c08(ck, tier, seed):
     ck.cov["rule"] = ("V+S: set_var_order for (source order, request) pairs: n=3 with all 256 functions alive "
                       "(2 sources x 16 requests quick, 6 x 16 thorough), n=4 (60 sampled / all 24x65), chains of 2-5 "
@@ -197,6 +226,7 @@ def c08(ck, tier, seed):
     # design level: concurrent_bubble_sort transcribed in BubbleSort.tla: all initial permutations of 5 positions,
     # 3 workers, every interleaving: NoOverlap, SwapsAreInversions, SortedAtEnd, NoStuck (no lost wake-up);
     # termination under fairness for 4 positions / 2 workers
+    levelswap_mc(ck, tier)
     res = vlib.model_check("BubbleSort", "MC_BubbleSort", workers=4, xmx="4g", timeout=900)
     ck.add_mc(res, must_cover=["Fetch", "AfterSwapAny"])
     res = vlib.model_check("BubbleSort", "MC_BubbleSortLive", workers=2, xmx="4g", timeout=900, coverage=False)
@@ -204,6 +234,9 @@ def c08(ck, tier, seed):
     ck.cov["rule"] += ("; hook (feature oxidd_verif): every other chain and 6/40 runs on 9..11 variables force the concurrent "
                        "bubble sort (2..8 workers); the recorded swap begin/end events of every set_var_order call must never "
                        "overlap on a level (same predicate as BubbleSort!NoOverlap)")
+    ck.cov["rule"] += ("; design: LevelSwap.tla (transcription of level_swap; all canonical stores of <= 2 live + 1 dead functions over 3 "
+                       "variables, both level pairs, BDD and ZBDD rules, every visiting order): SemPreserved, WellFormed, RcExact, "
+                       "NoDangling; two defective variants must be rejected")
     ck.cov["rule"] += ("; V (TraceBubbleSort): input sequence, swap begin/end events and return of the level sort of every "
                        "recorded set_var_order call are validated as a behaviour of BubbleSort.tla (critical sections Fetch/AfterSwap "
                        "as silent steps between the events; sequential sort: exactly the swap sequence of bubble_sort)")
